@@ -14,6 +14,7 @@ RULE = (
     ">= 4 hook invocations, or a *_children wrapper around >= 2 per-child changes. Enumerated distinct by construction; histories hashed."
     ' Also: interrupt-like BaseExceptions at every hook position; classes that got their hooks after they were already in use (assigned to the class / one callable per instance); *_children hooks that re-file a child.'
     ' Also: del n.children detaches from n only, whatever editing hooks did.'
+    " Also: hooks returning False, exceptions reaching the caller unreplaced, hooks editing the caller's own list."
 )
 ASSUMPTIONS = [
     "layer 1 (successful calls, refused calls and parent assignments aborted by a hook): the complete hook log equals the closed-form log derived from the protocol statement",
